@@ -26,6 +26,12 @@ namespace hv
 long    g_live     = 0;
 long    g_live_min = 0;
 int64_t g_now      = 1000000000;
+// tsan mode: every clock reading advances the virtual clock by a quarter of a millisecond (relaxed atomic: adds no
+// happens-before edge between the threads), so that entries (TTL 1-3 ms) expire while the two methods run and
+// the expiry paths - reaping inside lookups, clean_expired_values with real work, expired-first eviction - are
+// exercised under ThreadSanitizer too
+std::atomic<int64_t> g_tick{0};
+bool                 g_ticking = false;
 static unsigned g_seed = 12345;
 } // namespace hv
 
@@ -38,7 +44,9 @@ inline namespace _V2
 {
 steady_clock::time_point steady_clock::now() noexcept
 {
-    return steady_clock::time_point(std::chrono::nanoseconds(hv::g_now));
+    int64_t t = hv::g_now;
+    if (hv::g_ticking) t += hv::g_tick.fetch_add(250000, std::memory_order_relaxed);
+    return steady_clock::time_point(std::chrono::nanoseconds(t));
 }
 } // namespace _V2
 } // namespace chrono
@@ -113,23 +121,32 @@ static int run_tsan(const std::string& kind, int iters)
     g.ttl_ms  = 1;
     g.tick_ms = 1;
     g.ts      = true;
+    g_ticking = true;
     auto ms   = methods(kind);
     for (auto& a : ms)
     {
         for (auto& b : ms)
         {
             std::fprintf(stderr, "@pair %s %s\n", a.name, b.name);
-            auto             c = make(g);
-            std::atomic<int> go{0};
-            auto             body = [&](const Meth& m, unsigned base) {
-                go.fetch_add(1);
-                while (go.load() < 2) {}
-                for (int i = 0; i < iters; ++i) m.call(*c, base + (unsigned)i);
-            };
-            std::thread t1(body, std::cref(a), 0u);
-            std::thread t2(body, std::cref(b), 1000u);
-            t1.join();
-            t2.join();
+            auto c = make(g);
+            // several rounds, each starting from a populated container (entries that expire while the round runs,
+            // since the clock ticks): lookups, erases and reaping then have something to work on even in pairs in
+            // which neither method inserts
+            const int rounds = 5;
+            for (int rd = 0; rd < rounds; ++rd)
+            {
+                for (unsigned k = 0; k < 5; ++k) c->insert(k, k, 3, 1 + k % 2);
+                std::atomic<int> go{0};
+                auto             body = [&](const Meth& m, unsigned base) {
+                    go.fetch_add(1);
+                    while (go.load() < 2) {}
+                    for (int i = 0; i < iters / rounds + 1; ++i) m.call(*c, base + (unsigned)(rd * 131 + i));
+                };
+                std::thread t1(body, std::cref(a), 0u);
+                std::thread t2(body, std::cref(b), 1000u);
+                t1.join();
+                t2.join();
+            }
         }
     }
     std::fprintf(stderr, "@done\n");
